@@ -207,6 +207,13 @@ func (e *Exec) externalEnv(fr *Frame, st State, fn *ssa.Function, args []Val, po
 		}, true
 	case "(*sync.Mutex).Lock":
 		mu := args[0][0]
+		// acquiring a lock may block: an arbitrary amount of time passes
+		{
+			now := c.Fresh("now", BV(64))
+			old := e.ghost(st, "clock", BV(64))
+			st = st.assume(c.And(c.Sle(old, now), c.Slt(c.Sub(now, old), c.Const(64, 1<<50))))
+			st = st.setGhost("clock", now)
+		}
 		st = e.oblige(st, fr.fn, "lock", "not-held", pos, c.Not(e.ghost(st, gkey("held", mu), Bool)))
 		st = st.setGhost(gkey("held", mu), c.True)
 		return []Outcome{{st: st}}, true
@@ -277,9 +284,24 @@ func (e *Exec) externalEnv(fr *Frame, st State, fn *ssa.Function, args []Val, po
 		}
 		return []Outcome{{st: st, ret: e.freshVal(fn.Signature.Results().At(0).Type(), "timer")}}, true
 	case "time.Sleep":
-		st = st.setGhost("clock", c.Add(e.ghost(st, "clock", BV(64)), args[0][0]))
-		st = st.setGhost("slept", c.Add(e.ghost(st, "slept", BV(64)), args[0][0]))
+		// assumed: advances the ghost clock by at least the argument; a non-positive argument
+		// does not sleep at all
+		d := c.Ite(c.Slt(args[0][0], c.Const(64, 0)), c.Const(64, 0), args[0][0])
+		st = st.setGhost("clock", c.Add(e.ghost(st, "clock", BV(64)), d))
+		st = st.setGhost("slept", c.Add(e.ghost(st, "slept", BV(64)), d))
 		return []Outcome{{st: st}}, true
+	case "time.Now", "time.Since":
+		// assumed: a monotonic clock; time passes between any two observations (by an
+		// arbitrary non-negative amount below 2^62 ns)
+		now := c.Fresh("now", BV(64))
+		old := e.ghost(st, "clock", BV(64))
+		st = st.assume(c.And(c.Sle(old, now), c.Slt(c.Sub(now, old), c.Const(64, 1<<50))))
+		st = st.setGhost("clock", now)
+		e.assumed["assumed contract: time.Now/time.Since read a monotonic clock (ghost clock)"] = true
+		if fn.Name() == "Now" {
+			return []Outcome{{st: st, ret: Val{c.Const(64, 0), now, c.Const(64, 0)}}}, true
+		}
+		return []Outcome{{st: st, ret: Val{c.Sub(now, args[0][1])}}}, true
 	case "math/rand.Float64":
 		r := e.freshVal(fn.Signature.Results().At(0).Type(), "rand")
 		zero := e.fpFromBits(c.Const(64, 0))
